@@ -7,7 +7,9 @@ Topology Utilities
 import copy
 import re
 
-from vivarium.library.dict_utils import deep_merge, deep_merge_multi_update
+from vivarium.library.dict_utils import (
+    deep_merge, deep_merge_multi_update, is_variable_update,
+    merge_variable_updates)
 
 
 def get_in(d, path, default=None):
@@ -220,7 +222,8 @@ def inverse_topology(outer, update, topology, inverse=None, multi_updates=True):
                         inverse = update_in(
                             inverse,
                             inner,
-                            lambda current: deep_merge_multi_update(current, value))
+                            lambda current: merge_variable_updates(
+                                current, value))
                     # Do not allow multiupdates when forming initial state
                     else:
                         inverse = update_in(
